@@ -201,3 +201,23 @@ package limiter
 //@   loop 1: invariant [t] true
 //@   loop 2: invariant [t] true
 //@   loop 3: invariant [t] true
+
+// (C18) The server's heartbeat endpoint records the instance in the client cache (and nothing else): an instance that keeps
+// calling it is alive for the cleanups.
+//@ func (*rateLimiter).Heartbeat props C18
+//@   requires [wf] r.clientCache != nil
+//@   modifies smap(&r.clientCache.clientHeartbeats)[box(instance)], clock
+//@   ensures [recorded] result == nil && smhas(RHB, box(instance)) && typeis(smget(RHB, box(instance)), "time.Time")
+//@   ensures [others_kept] forall k ref :: {smhas(RHB, k)} k != box(instance) ==> smhas(RHB, k) == old(smhas(RHB, k)) && smget(RHB, k) == old(smget(RHB, k))
+
+// (C19) A server that gains a shard serves it only from a store whose Load succeeded: when loading the persisted conditions
+// (or the first pass over the shard's upstreams) fails, the freshly built store is taken out of the table again, so the
+// periodic leader check retries -- it never serves the shard from an empty store.
+//@ func (*rateLimiter).syncUpstreamClustersForShard props C19
+//@   trusted "lists the upstream clusters and runs the upstream handler for those of the shard; it does not touch the limit-store table"
+//@   modifies storeops, localsaves, localsaved[*], hashwritten, listedconds
+//@ func (*rateLimiter).startLeading props C19
+//@   requires [wf] r.limitStoreMap != nil
+//@   modifies *
+//@   ensures [served_only_after_load] !old(shardId in r.limitStoreMap) && (shardId in r.limitStoreMap) ==> loaderr == nil
+//@   ensures [others_kept] forall k int :: {k in r.limitStoreMap} k != shardId ==> ((k in r.limitStoreMap) == old(k in r.limitStoreMap)) && r.limitStoreMap[k] == old(r.limitStoreMap[k])
